@@ -9,10 +9,11 @@ from . import record_mesh as rm
 from .common import ROOT, env_for_repo
 
 
-def run_loop(problem, domain, exact, refinement, estimator, grading, iters, hh2=0, hier=0, theta=0.9, sigma=2.0, timeout=2400):
+def run_loop(problem, domain, exact, refinement, estimator, grading, iters, hh2=0, hier=0, theta=0.9, sigma=2.0, quadrature="5355", workdir=None,
+             timeout=2400):
     env = env_for_repo()
     env["OMP_NUM_THREADS"] = env["OPENBLAS_NUM_THREADS"] = "1"
-    args = [problem, domain, int(exact), refinement, estimator, int(grading), iters, int(hh2), int(hier), theta, sigma]
+    args = [problem, domain, int(exact), refinement, estimator, int(grading), iters, int(hh2), int(hier), theta, sigma, quadrature] + ([workdir] if workdir else [])
     cmd = ["/venv/bin/python", os.path.join(ROOT, "harness", "loop_worker.py")] + [str(a) for a in args]
     os.makedirs(os.path.join(ROOT, ".scratch"), exist_ok=True)
     try:
@@ -77,3 +78,25 @@ def driver_block(ctx, configs, kinds, clauses, tag="driver"):
     if not any(s["events_of_interest"] for s in stats):
         ctx.machinery_error("%s: the driver produced no %s events" % (tag, "/".join(sorted(kinds))))
     return stats
+
+
+def run_session(runs):
+    """several complete first iterations of the driver from ONE working directory, one process each (Sessions.tla);
+    runs: list of (problem, domain, exact, quadrature, hier).  Every estload record gets the configurations that ran before."""
+    import shutil
+    import tempfile
+    work = tempfile.mkdtemp(prefix="sess.", dir=os.path.join(ROOT, ".scratch"))
+    recs, priors = [], []
+    try:
+        for problem, domain, exact, quad, hier in runs:
+            a, rr = run_loop(problem, domain, exact, "uniform", "sobolev", 0, 1, 0, hier, 0.9, 2.0, quad, work)
+            for r in rr:
+                if r["k"] == "estload":
+                    r["priors"] = list(priors)
+                    r["hier_enabled"] = bool(hier)
+                if r["k"] != "mesh":
+                    recs.append(r)
+            priors.append({"problem": problem, "domain": domain, "exact": bool(exact), "q0": quad[0], "q1": "_".join(quad[1:]), "hier_enabled": bool(hier)})
+    finally:
+        shutil.rmtree(work, ignore_errors=True)
+    return ("estimator-session",) + tuple(map(tuple, runs)), recs
